@@ -1,8 +1,17 @@
 """C08: connection-level check (see DESIGN section 6 / C08): scenario families on the real endpoints, recorded traces
 validated against RSocket.tla by TLC; design-level model checking of the same monitors in RSocketMC.tla."""
-from . import conn, families, mc
+from .. import common
+from . import conn, families, mc, suitetraces
+
+# quick tier: the stream / channel / multiple-stream / fragmentation / lease / keep-alive tests of the repository over TCP (about 20 s);
+# thorough tier: the whole pinned suite, every transport
+QUICK_SUITE = ['tests/rsocket/test_request_channel.py', 'tests/rsocket/test_request_stream.py', 'tests/rsocket/test_multiple_streams.py',
+               'tests/rsocket/test_fragments.py', 'tests/rsocket/test_lease.py', 'tests/rsocket/test_connection_lost.py', 'tests/rsocket/test_misbehaving_client.py',
+               'tests/rsocket/test_request_response.py', 'tests/rx_support', '-k', '"tcp or not (quart or aiohttp)"']
 
 
 def run(v):
     mc.run_for(v, 'C08')
     conn.check(v, 'C08', families.FAMILIES['C08'])
+    # the repository's own tests, recorded on whatever transport they use, validated against the same monitor
+    suitetraces.check(v, 'C08', select=None if common.tier() == 'thorough' else QUICK_SUITE)
